@@ -16,6 +16,28 @@ CLAIMED = {
              "valid for every constant set and temperature (not a sample).",
         note=TB + "ghost differentiation operator cross-checked numerically each run; log(10) one opaque constant",
         technique="contracts on the real functions; VCs from the AST by symbolic execution; z3 (QF_NRA); mechanical differentiation of the extracted ln Psat term"),
+    'C15': dict(
+        level='proof', ref='DESIGN.md 3/C15',
+        text="Constructor rejection outside [0,1], identity on own type, conversion formulas, round trips both ways, fixed points 0 and 1, strict "
+             "monotonicity, first+second=1 and the ratio law are postconditions/lemmas on the real Composition constructor, to_molar and to_weight; "
+             "each is an unsat query over all fractions and all positive molar masses, including values arbitrarily close to the ends.",
+        note=TB + "class invariant 0<=p<=1 relies on an AST scan showing no assignment to .p anywhere in the package",
+        technique="contracts on the real functions; VCs by symbolic execution of the AST (real attrs validator executed); z3 QF_NRA"),
+    'C14': dict(
+        level='proof', ref='DESIGN.md 3/C14',
+        text="Permeance.convert is executed symbolically for all 16 unit pairs (3 units + an unknown one on either side) x component present/absent with value "
+             "and molar mass symbolic: identity object for equal units, value = v*f(from)/f(to), linearity, path independence, invertibility, the raising cases, "
+             "and the class invariant value>=0 from the constructor clamp; all discharged for every value and molar mass.",
+        note=TB + "3.35e-10 and 3.6e3 are the exact decimals of the source; invariant relies on an AST scan (no assignment to .value)",
+        technique="contracts on the real functions; path enumeration over concrete unit strings + z3 on symbolic values"),
+    'C04': dict(
+        level='proof', ref='DESIGN.md 3/C04',
+        text="ln gamma_i is extracted from the real calculate_activity_coefficients (NRTL with one/two alphas, UNIQUAC); Gibbs-Duhem is proved by mechanical "
+             "differentiation of that very term for all parameters and 0<x1<1 (UNIQUAC split into tau-free and tau-dependent summands), pure-component limits, "
+             "Raoult reduction, the partial-pressure formula and basis independence are further postconditions. The UNIQUAC tau-dependent identity is genuinely "
+             "violated by the code (known finding K1, identified by a semantic fingerprint; any other deviation is reported).",
+        note=TB + "tau atoms generalised to fresh positive reals; differentiator cross-checked numerically each run; r,q,q'>0, T>0",
+        technique="contracts on the real functions; symbolic execution + ghost differentiation; z3 nlsat with hypothesis slicing"),
 }
 
 NOT_YET = "check under construction (see DESIGN.md section 7); not claimed until every obligation is in place"
